@@ -1,16 +1,16 @@
 """C12 - printed XML / JSON are standard conformant and mean the same to any parser"""
-from props import comps, comps_json, oracles
+from props import comps, comps_doc, comps_json, oracles
 
 PID = "C12"
 LEVEL = "proof"
 
 
 def components():
-    return [comps.XmlEsc(), comps_json.JsonEsc(), comps_json.JsonStr()]
+    return [comps.XmlEsc(), comps_json.JsonEsc(), comps_json.JsonStr(), comps_doc.DocModel()]
 
 
 def oracles_():
-    return [comps.XmlEscStd(), oracles.StdReaders()]
+    return [comps.XmlEscStd(), oracles.StdReaders(), comps_doc.WellFormedX()]
 
 
 MANIFEST = {
